@@ -9,6 +9,8 @@ R-C01-4  remaining-length accounting in the sector walk: the walk starts from
          file_length(), hands the visitor min(remaining, sector size) bytes of
          each sector, and decreases the remainder by exactly that amount; the
          walk covers start_sector()..last_sector()
+R-C01-6  no degenerate `continue` in a table-walking loop (the condition must
+         depend on something that changes on the continue path)
 R-C01-5  last_sector(): an empty file occupies no further sector; otherwise
          start + ceil(length / sector size) - 1
 """
@@ -550,14 +552,122 @@ def rule_last_sector(prog, fixture=False):
     return r
 
 
+# ---------------------------------------------------------------- R-C01-6
+def _loop_body(loop):
+    parts = loop.get("parts", {})
+    if "body" not in parts:
+        return None
+    b = loop["c"][parts["body"]]
+    return b if b.get("k") == "CompoundStmt" else None
+
+
+def _ends_in_continue(st):
+    if st is None:
+        return False
+    if st.get("k") == "ContinueStmt":
+        return True
+    if st.get("k") == "CompoundStmt" and st.get("c"):
+        return st["c"][-1].get("k") == "ContinueStmt"
+    return False
+
+
+def _writes_in(n):
+    out = set()
+    for x in walk(n):
+        for d, _ in flow.written_decls(x):
+            out.add(d)
+        if x.get("k") == "UnaryOperator" and x.get("op") in ("++", "--"):
+            d = flow.lvalue_root(x["c"][0])
+            if d is not None:
+                out.add(d)
+    return out
+
+
+def rule_degenerate_continue(prog, fixture=False):
+    r = RuleResult("R-C01-6", "a table-walking loop's `continue` is not degenerate: the condition of an early "
+                   "`continue` must depend on something that changes on the continue path (otherwise every "
+                   "later iteration takes the same branch and the rest of the table is never looked at)",
+                   floor=0 if fixture else 8)
+    for fn in prog.functions.values():
+        for loop in fn.walk():
+            if loop.get("k") not in ("ForStmt", "WhileStmt", "CXXForRangeStmt"):
+                continue
+            body = _loop_body(loop)
+            if body is None:
+                continue
+            parts = loop["parts"]
+            stmts = body.get("c", [])
+            for k, st in enumerate(stmts):
+                if st.get("k") != "IfStmt" or "else" in st.get("parts", {}):
+                    continue
+                if not _ends_in_continue(st["c"][st["parts"]["then"]]):
+                    continue
+                cond = st["c"][st["parts"]["cond"]]
+                key = "%s::%s::continue@%s" % (fn.relfile(), fn.qn, "#%d" % (1 + sum(
+                    1 for x in r.instances if x.key.startswith("%s::%s::continue@" % (fn.relfile(), fn.qn)))))
+                # anything with an effect or an unknown value in the condition: not decided, not suspicious
+                if any(is_call(x) and not (x.get("k") == "CXXMemberCallExpr" and
+                                           (strip(x["c"][0]) or {}).get("n") in ("size", "empty", "has_value"))
+                       and x.get("k") not in ("CXXConstructExpr",) for x in walk(cond)):
+                    r.add(key, fn.loc(st), True, "condition calls a function (its value may change by itself)", nontrivial=False)
+                    continue
+                deps = flow.decl_ids(cond)
+                locals_before = {}
+                for prev in stmts[:k]:
+                    for x in walk(prev):
+                        if x.get("k") == "VarDecl" and x.get("c"):
+                            locals_before[x["d"]] = x["c"][0]
+                changed = True
+                calls_in_defs = False
+                while changed:
+                    changed = False
+                    for d in list(deps):
+                        if d in locals_before:
+                            init = locals_before[d]
+                            if any(x.get("k") in ("CallExpr", "CXXMemberCallExpr") for x in walk(init)):
+                                calls_in_defs = True
+                            new = flow.decl_ids(init) - deps
+                            if new:
+                                deps |= new
+                                changed = True
+                if calls_in_defs:
+                    r.add(key, fn.loc(st), True, "condition depends on a call result", nontrivial=False)
+                    continue
+                deps -= set(locals_before)
+                on_path = set()
+                for prev in stmts[:k]:
+                    on_path |= _writes_in(prev)
+                on_path |= _writes_in(cond)
+                for nm in ("inc", "cond"):
+                    if nm in parts:
+                        on_path |= _writes_in(loop["c"][parts[nm]])
+                if loop["k"] == "CXXForRangeStmt" and "loopvar" in parts:
+                    on_path |= {x["d"] for x in walk(loop["c"][parts["loopvar"]]) if x.get("k") == "VarDecl"}
+                then_w = _writes_in(st["c"][st["parts"]["then"]])
+                on_path |= then_w
+                after = set()
+                for nxt in stmts[k + 1:]:
+                    after |= _writes_in(nxt)
+                stuck = (deps & after) - on_path
+                ok = bool(deps & on_path) or not stuck
+                names = sorted({x.get("n") for x in walk(body) if x.get("k") == "DeclRefExpr" and x.get("d") in stuck})
+                r.add(key, fn.loc(st), ok, "the condition changes from one iteration to the next" if ok else
+                      "`continue` under `%s`: the condition depends on %s, which is advanced only after the "
+                      "`continue`; once it holds it holds for every later iteration, so the remaining entries "
+                      "are never examined" % (show(cond), ", ".join(names)))
+    return r
+
+
 def run(ctx):
     prog = ctx.prog("dfs", "N")
     r1 = c02.rule_entry_fields(prog, only=["start_sector", "file_length"], rule_id="R-C01-1")
-    return [r1, rule_body_path(prog), rule_walk_accounting(prog), rule_last_sector(prog)]
+    return [r1, rule_body_path(prog), rule_walk_accounting(prog), rule_last_sector(prog),
+            rule_degenerate_continue(prog)]
 
 
 SELFTESTS = [
     (lambda p, fixture=True: c02.rule_entry_fields(p, fixture=True, only=["start_sector", "file_length"], rule_id="R-C01-1"),
      ["c02_bad.cc"], ["c02_good.cc"], "file_length"),
     (rule_walk_accounting, ["c01_bad.cc"], ["c01_good.cc"], "amount"),
+    (rule_degenerate_continue, ["c01_bad.cc"], ["c01_good.cc"], "count_volumes_bad"),
 ]
